@@ -342,6 +342,22 @@ func checkProperty(cfg *RunCfg, prog *Program, id string, start time.Time) (int,
 		fmt.Fprintf(os.Stderr, "ENGINE-ERROR: no contract carries property %s\n", id)
 		return 2, nil
 	}
+	autoC17 := map[string]bool{}
+	autoPropagate = map[string]bool{}
+	if id == "C17" {
+		// "a failing run fails": every function of the module whose last result is an error is checked for
+		// dropped errors, contract or not
+		have := map[string]bool{}
+		for _, k := range keys {
+			have[k] = true
+		}
+		for _, k := range prog.errorReturningFuncs() {
+			autoPropagate[k] = true
+			if !have[k] {
+				autoC17[k] = true
+			}
+		}
+	}
 	// closure over the contracts used as assumptions
 	results := map[string]*UnitResult{}
 	direct := map[string]bool{}
@@ -378,6 +394,49 @@ func checkProperty(cfg *RunCfg, prog *Program, id string, start time.Time) (int,
 			if _, done := results[used]; !done {
 				queue = append(queue, used)
 			}
+		}
+	}
+	// C17: functions that are neither claimed nor a dependency are checked for dropped errors only
+	for _, k := range sortedKeys(autoC17) {
+		if _, done := results[k]; done {
+			delete(autoC17, k)
+			continue
+		}
+		fi := prog.Funcs[k]
+		if fi == nil {
+			continue
+		}
+		r := VerifyFunc(prog, fi, cfg.Tier)
+		r.SrcHash = srcHash(prog, fi)
+		results[k] = r
+		order = append(order, k)
+		direct[k] = true
+		// the contracts its proof leans on are verified as well
+		queue := append([]string{}, r.UsedContracts...)
+		for len(queue) > 0 {
+			d := queue[0]
+			queue = queue[1:]
+			if _, done := results[d]; done {
+				delete(autoC17, d) // a dependency counts with all its obligations
+				continue
+			}
+			dfi := prog.Funcs[d]
+			if dfi == nil {
+				results[d] = &UnitResult{Key: d, Reg: NewRegistry()}
+				queue = append(queue, prog.implementationsOf(d)...)
+				continue
+			}
+			if dfi.Con != nil && dfi.Con.Trusted {
+				results[d] = &UnitResult{Key: d, Reg: NewRegistry(), Notes: []string{"TRUSTED contract, assumed without proof: " + d}}
+				order = append(order, d)
+				continue
+			}
+			dr := VerifyFunc(prog, dfi, cfg.Tier)
+			dr.SrcHash = srcHash(prog, dfi)
+			results[d] = dr
+			order = append(order, d)
+			delete(autoC17, d)
+			queue = append(queue, dr.UsedContracts...)
 		}
 	}
 	for _, lm := range lemmas {
@@ -417,6 +476,7 @@ func checkProperty(cfg *RunCfg, prog *Program, id string, start time.Time) (int,
 				// C13 claims the functions that carry it: for their callees only the postconditions they rely on
 			case id == "C09" && !direct[k]:
 			case id == "C09" && autoC09[k] && o.Kind != "commute":
+			case id == "C17" && autoC17[k] && o.Kind != "propagate":
 			case isSafetyKind(o.Kind):
 				// safety obligations count for C13 for functions that claim C13
 				if id == "C13" && direct[k] {
